@@ -43,12 +43,12 @@ def bind_repo():
     import bacpypes  # noqa
     if not bacpypes.__file__.startswith(SRC + os.sep):
         raise Infra("bacpypes resolves to %s, not %s" % (bacpypes.__file__, SRC))
-    if os.environ.get("VERIF_DEBUGFLAGS") == "1":
+    if os.environ.get("VERIF_DEBUGFLAGS") in ("1", "2"):
         debug_flags_on()
     return bacpypes
 
 
-def debug_flags_on():
+def debug_flags_on(full=False):
     """the library's module-level debugging switched ON (every `if _debug:` block runs and evaluates its
     arguments) while the loggers stay at their default level, so nothing is formatted or printed: what a
     module does must not depend on whether it is being traced"""
@@ -66,6 +66,28 @@ def debug_flags_on():
         if hasattr(mod, "_debug"):
             mod._debug = 1
             n += 1
+    if os.environ.get("VERIF_DEBUGFLAGS") == "2" or full:
+        # full tracing: a handler with the library's own LoggingFormatter (which walks debug_contents() of
+        # every logged object) on the package logger, writing nowhere
+        import logging
+        from bacpypes.debugging import LoggingFormatter
+
+        class _Null(object):
+            def write(self, s):
+                pass
+
+            def flush(self):
+                pass
+        h = logging.StreamHandler(_Null())
+        h.setLevel(logging.DEBUG)
+        h.setFormatter(LoggingFormatter())
+        lg = logging.getLogger("bacpypes")
+        lg.addHandler(h)
+        lg.setLevel(logging.DEBUG)
+        lg.propagate = False
+        for name in list(logging.Logger.manager.loggerDict):
+            if name.startswith("bacpypes."):
+                logging.getLogger(name).setLevel(logging.DEBUG)
     return n
 
 
@@ -477,11 +499,13 @@ def debug_flags_pass(ctx, prop_id):
     import pickle
     fd, path = tempfile.mkstemp(prefix="verif-subpass-", suffix=".pkl")
     os.close(fd)
-    env = dict(os.environ, VERIF_DEBUGFLAGS="1", VERIF_SUBPASS=path, VERIF_TIER="quick")
+    # quick tier: flags only (cheap); thorough tier: full tracing (handlers + the library's formatter, ~10x slower)
+    level = "2" if ctx.tier == "thorough" else "1"
+    env = dict(os.environ, VERIF_DEBUGFLAGS=level, VERIF_SUBPASS=path, VERIF_TIER="quick")
     t0 = time.time()
     try:
         p = subprocess.run([sys.executable, "-m", "harness.main", prop_id, "--tier", "quick"], cwd=VERIF, env=env,
-                           capture_output=True, text=True, timeout=800)
+                           capture_output=True, text=True, timeout=800 if level == "1" else 3000)
         if p.returncode != 0 or not os.path.getsize(path):
             raise Infra("debug-flags pass ended with rc %d: %s" % (p.returncode, (p.stdout + p.stderr)[-400:]))
         d = pickle.load(open(path, "rb"))
@@ -492,10 +516,12 @@ def debug_flags_pass(ctx, prop_id):
             os.remove(path)
         except OSError:
             pass
-    setting = "module debugging switched on (every bacpypes module's _debug flag set, loggers at their default level)"
+    setting = ("module debugging switched on (every bacpypes module's _debug flag set, loggers at their default level)"
+               if level == "1" else
+               "module debugging switched on with full tracing (every _debug flag set, a handler with the library's LoggingFormatter on the bacpypes loggers)")
     for rec in d["failures"]:
         rec["setting"] = setting
-        rec["debugflags"] = 1
+        rec["debugflags"] = int(level)
         rec["what"] = "[with %s] %s" % ("module debugging on", rec.get("what"))
         ctx.failures.append(rec)
     for dis in d["disagreements"]:
@@ -590,11 +616,11 @@ def run_check(prop_id, mod, tier, seed, replay=None):
             if replay:
                 payload = json.load(open(replay))
                 if (payload.get("failure") or {}).get("debugflags"):
-                    debug_flags_on()
+                    debug_flags_on(full=(payload["failure"]["debugflags"] == 2))
                 mod.replay(ctx, payload)
             else:
                 mod.run(ctx)
-                if os.environ.get("VERIF_DEBUGFLAGS") != "1" and os.environ.get("VERIF_NO_DEBUGPASS") != "1":
+                if os.environ.get("VERIF_DEBUGFLAGS") not in ("1", "2") and os.environ.get("VERIF_NO_DEBUGPASS") != "1":
                     debug_flags_pass(ctx, prop_id)
         except (Infra, MemoryError, OSError, KeyboardInterrupt):
             raise
